@@ -83,9 +83,9 @@ type OrLabelMatcher struct {
 
 // Process implements Processor.
 func (m *OrLabelMatcher) Process(ts otelstorage.Timestamp, line string, set LabelSet) (_ string, keep bool) {
-	line, keep = m.Left.Process(ts, line, set)
-	if keep {
-		return line, keep
+	// Do not pass the line returned by a rejecting left side to the right side.
+	if newLine, ok := m.Left.Process(ts, line, set); ok {
+		return newLine, true
 	}
 	return m.Right.Process(ts, line, set)
 }
